@@ -75,6 +75,25 @@ class C12(FprCheck):
                 return {"key": "truncation-differs", "what": "level %d of a run to %d differs from a run limited to %d" % (k, L, k), "long": a, "limited": b}
             if a["level"] != k:
                 return {"key": "label-wrong", "what": "fingerprint requested at level %d is labelled %r" % (k, a["level"])}
+        # the same through the per-level dictionary of the entry point (all iterations): the list under key k holds
+        # fingerprints labelled k that equal a run limited to k, also for k beyond the level at which the conformer converged
+        from e3fp.fingerprint.generate import fprints_dict_from_mol
+        Lq = min(L, reached + 3)
+        m1 = type(mol)(mol)
+        m1.RemoveAllConformers()
+        m1.AddConformer(type(conf)(conf), assignId=True)
+        try:
+            d = fprints_dict_from_mol(m1, all_iters=True, **dict(o, level=Lq))
+        except Exception as e:  # noqa: BLE001
+            return {"key": "entry-raises:" + type(e).__name__, "what": "fprints_dict_from_mol(all_iters) raised %r" % e}
+        if sorted(d) != list(range(Lq + 1)):
+            return {"key": "alliters-keys", "what": "all-iterations keys %s for level %d" % (sorted(d), Lq)}
+        for k in range(Lq + 1):
+            got = dump_fp(d[k][0])
+            if got["level"] != k:
+                return {"key": "label-wrong:all-iters", "what": "the fingerprint under key %d of the all-iterations dictionary is labelled %r (the conformer converges at %d)" % (k, got["level"], reached)}
+            if got != dump_fp(fp.get_fingerprint_at_level(k)):
+                return {"key": "truncation-differs:all-iters", "what": "the all-iterations list of level %d differs from the level-%d fingerprint of the long run" % (k, k)}
         if o["remove_duplicate_substructs"]:
             f3 = MG.make_fprinter(dict(o, level=-1))
             f3.run(conf, mol)
